@@ -594,6 +594,8 @@ def dataset_spec(draw, convs=ALL_CONVS, max_vars=3, min_vars=1, max_extra=2,
         spec["extra"]["tstep"] = spec["extra"].pop("time")
     spec["vars"] = draw(variables(spec, max_vars=max_vars, min_vars=min_vars,
                                   **(var_kwargs or {}))) if with_vars else []
+    if conv != "cf1d" and draw(st.integers(0, 3)) == 0:
+        spec["coord_dtype"] = "f4"
     if dim_coords and draw(st.integers(0, 3)) == 0:
         spec["dim_coords"] = draw(dimension_coordinates(spec))
     spec["mode"] = draw(st.sampled_from(list(modes)))
